@@ -18,6 +18,7 @@ import os
 import tomllib
 import facts as factsmod
 from mir import Program, callee_names, op_local, calls_named, edge_only_region
+from mir import result_edges as result_edges_
 import common
 import restab
 
@@ -279,6 +280,43 @@ def run(rep, tier="quick", replay=None, evidence_dir=None):
             rep.ob("C08.R8", "a Value::%s resolved against %s resolves again into the same variant" % (b_, R_), rc is not None and rc["cls"] != "never" and set(rc["builds"]) <= {b_},
                    "resolving the already resolved value %s" % ("fails" if rc is None or rc["cls"] == "never" else "builds %s" % rc["builds"]), d_["loc"])
     rep.floor("C08.R7", "non-composite reader shapes x built variants", n7, 25)
+    # ---------------------------------------------------------------- R9 arrays and maps: every item, with the reader's item schema
+    rep.rule("C08.R9", "resolve_array / resolve_map resolve every item against the reader's item schema, keep map keys, drop nothing and propagate the first error")
+    DROPPING = ("filter", "filter_map", "flat_map", "flatten", "take", "take_while", "skip", "skip_while", "step_by")
+    ri_ = prog.bodies.get("types::Value::resolve_internal")
+    for fn, field in (("types::Value::resolve_array", "items"), ("types::Value::resolve_map", "types")):
+        b0 = prog.bodies.get(fn)
+        if b0 is None or ri_ is None:
+            rep.anchor_error("C08.R9", fn)
+            continue
+        fam = prog.with_closures(b0)
+        inner = [(bb, bi, t) for bb in fam for bi, t in calls_named(bb, "types::Value::resolve_internal")]
+        okc = len(inner) == 1 and inner[0][0].kind == "Closure"
+        rep.ob("C08.R9", "%s resolves each item with one resolve_internal call inside the per-item closure" % fn.split("::")[-1], okc, "found %d calls" % len(inner), b0.loc())
+        if okc:
+            bb, bi, t = inner[0]
+            rep.ob("C08.R9", "%s: items are resolved against the schema the function was given" % fn.split("::")[-1], bb.opdesc(t["args"][1]).endswith("schema"), "resolves against %s" % bb.opdesc(t["args"][1]), bb.loc(bi))
+        drops = [callee_names(t["func"])[0].split("::")[-1] for bb in fam for _, t in bb.calls() if callee_names(t["func"])[0].startswith("std::iter::Iterator::") and callee_names(t["func"])[0].split("::")[-1] in DROPPING]
+        okres = [1 for bb in fam for _, t in bb.calls() if callee_names(t["func"])[0].endswith(("Result::<T, E>::ok", "Result::<T, E>::unwrap_or", "Result::<T, E>::unwrap_or_default", "Result::<T, E>::unwrap_or_else"))]
+        rep.ob("C08.R9", "%s drops no item and swallows no item error" % fn.split("::")[-1], not drops and not okres, "adapters %s, error-swallowing calls %d" % (drops, len(okres)), b0.loc())
+        col = calls_named(b0, "std::iter::Iterator::collect")
+        from shape import err_edge_only_err
+        rep.ob("C08.R9", "%s: the collected result is propagated with its error" % fn.split("::")[-1], len(col) == 1 and "Result<" in str(col[0][1]["func"].get("ga")) and len(result_edges_(b0, col[0][1]["dest"]["l"])) == 1, "", b0.loc())
+        # call site in resolve_internal hands the reader's item schema
+        sites = calls_named(ri_, fn)
+        rep.ob("C08.R9", "resolve_internal hands %s the reader schema's `%s`" % (fn.split("::")[-1], field), len(sites) >= 1 and all(field in ri_.opdesc(t["args"][1]) for _, t in sites),
+               "passes %s" % [ri_.opdesc(t["args"][1]) for _, t in sites], ri_.loc(sites[0][0]) if sites else ri_.loc())
+    if prog.bodies.get("types::Value::resolve_map") is not None:
+        mfam = prog.with_closures(prog.bodies["types::Value::resolve_map"])
+        # the key of each entry is passed through unchanged: the per-entry closure builds (key, value) from its own key
+        keyok = False
+        for bb in mfam:
+            if bb.kind != "Closure":
+                continue
+            for _, _, st in bb.stmts():
+                if st["s"] == "assign" and st["rv"]["r"] == "agg" and st["rv"].get("ak") == "tuple" and len(st["rv"]["ops"]) == 2 and "key" in bb.opdesc(st["rv"]["ops"][0]):
+                    keyok = True
+        rep.ob("C08.R9", "resolve_map keeps each entry's key", keyok, "", prog.bodies["types::Value::resolve_map"].loc())
     rep.floor("C08", "obligations", len(rep.obligations), 500)
     rep.not_decided = ["union branch selection by type, default values, idempotence, validate(resolved, R): value-level, need execution",
                        "logical-type *values* read with a reader of the underlying type (date -> long ...): demanded by C09.R1 where the compatibility checker promises it"]
